@@ -182,7 +182,7 @@ func vh_C04_check() {
 			vxAssert(err != nil, "a MAC computed over any other prefix / length field does not verify")
 		}
 	}
-	vxUnchanged(m, snap, "Check")
+	vxUnchangedOrMoved(m, snap, "Check", messageIntegritySize)
 }
 
 // a change to a covered byte (header type / transaction ID / a value byte before the MAC) is detected
